@@ -64,7 +64,9 @@ def st_case(draw):
     return {"backend": draw(st.sampled_from(["kv", "sql"])), "path": draw(st.sampled_from(["ws", "ws", "direct"])),
             "event": ev, "other": other, "muts": muts, "k": k, "prelude": prelude, "newer": newer,
             # the mutant travels on the connection that just had the genuine event accepted
-            "same_conn": draw(st.booleans())}
+            "same_conn": draw(st.booleans()),
+            # seconds the validation job waits for a free worker thread (the signature check runs there)
+            "slow": draw(st.sampled_from([None, None, None, 3, 100, 100000]))}
 
 
 def mutate(case):
@@ -268,7 +270,11 @@ class Authentic(Sub):
                     c0.feed(["EVENT", nosettle])
                     for _ in range(4):
                         await asyncio.sleep(0)
-                fr = [json.loads(x) for x in await c.send(["EVENT", ev])]
+                if case.get("slow"):
+                    labels.append("validation-waits-for-a-worker-thread")
+                    fr = [json.loads(x) for x in await H.send_while_workers_busy(rig, c, ["EVENT", ev], case["slow"])]
+                else:
+                    fr = [json.loads(x) for x in await c.send(["EVENT", ev])]
                 oks = [f for f in fr if f[0] == "OK"]
                 if len(oks) != 1 and c.closed is None:
                     viol.append(V("ok-count", "one OK per EVENT", frames=fr))
